@@ -15,17 +15,17 @@ ASSUMPTIONS = ["that the set of resolvable edges equals the input's (K+1)-mers i
 
 def run(F, rep):
     rep.engines.update(["E2-DT", "E1"])
-    dt_graph.find_link_table(F, rep, "C03.1")
-    dt_graph.finish_tables(F, rep, "C03.2")
-    dt_graph.find_edges_table(F, rep, "C03.3")
-    dt_graph.get_valid_exts_table(F, rep, "C03.4")
-    dt_graph.fix_exts_table(F, rep, "C03.4")
-    dt_graph.censor_tables(F, rep, "C03.5")
-    dt_graph.max_path_table(F, rep, "C03.7")
-    dt_graph.beam_expand_table(F, rep, "C03.7")
-    dt_graph.sequence_of_path_table(F, rep, "C03.8")
+    rep.run(dt_graph.find_link_table, F, rep, "C03.1")
+    rep.run(dt_graph.finish_tables, F, rep, "C03.2")
+    rep.run(dt_graph.find_edges_table, F, rep, "C03.3")
+    rep.run(dt_graph.get_valid_exts_table, F, rep, "C03.4")
+    rep.run(dt_graph.fix_exts_table, F, rep, "C03.4")
+    rep.run(dt_graph.censor_tables, F, rep, "C03.5")
+    rep.run(dt_graph.max_path_table, F, rep, "C03.7")
+    rep.run(dt_graph.beam_expand_table, F, rep, "C03.7")
+    rep.run(dt_graph.sequence_of_path_table, F, rep, "C03.8")
     # edge symmetry of graphs produced by (re)compression: terminal extensions of built nodes and the step rule of both routes
-    dt_compress.hash_builder_table(F, rep, "C03.6")
-    dt_compress.graph_builder_table(F, rep, "C03.6")
-    dt_tables.hash_step_table(F, rep, "C03.6")
-    dt_tables.graph_step_table(F, rep, "C03.6")
+    rep.run(dt_compress.hash_builder_table, F, rep, "C03.6")
+    rep.run(dt_compress.graph_builder_table, F, rep, "C03.6")
+    rep.run(dt_tables.hash_step_table, F, rep, "C03.6")
+    rep.run(dt_tables.graph_step_table, F, rep, "C03.6")
